@@ -20,3 +20,35 @@ EXPLANATION = "Status folding, exception-ladder totality and exit-code lemmas ar
 LEVEL_TEXT = "Deductive: status folding / nothing-dropped clauses are postconditions and loop invariants on the real engine functions, discharged by z3."
 LEVEL_NOTE = "Trusted: queue/threading models (E5), Hypothesis (E2), pyvc semantics (E9). Sequential; schedules not decided."
 TECHNIQUE = "contract-based deductive verification: AST->z3 VC generation on the real engine functions (pyvc), ghost state, loop invariants"
+
+
+# ------------------------------------------------------------------------------------------------- the process exit code
+CTX_ = "schemathesis.cli.commands.run.context:"
+EV_ = "schemathesis.engine.events:"
+R.contract(CTX_ + "Statistic.on_scenario_finished", args={"self": Opq("Any"), "recorder": Opq("Any")}, returns=NoneT, trusted=True, effects={"recorded": "ghost('recorded') + 1"},
+           note="groups the recorder's check results per case (C16 contracts use the result)")
+R.opaque_classes["Statistic"] = CTX_ + "Statistic"
+_Status = EnumOf("schemathesis.engine:Status")
+_Event = OneOf(
+    Obj(EV_ + "ScenarioFinished", recorder=Opq("Recorder"), status=_Status),
+    Obj(EV_ + "NonFatalError", label=Str),
+    Obj(EV_ + "PhaseFinished", phase=Obj("schemathesis.engine.phases:Phase", is_enabled=Bool), status=_Status),
+    Obj(EV_ + "EngineFinished"),
+    Obj(EV_ + "Interrupted"),
+)
+BAD = ("is_instance(event, 'NonFatalError') or (is_instance(event, 'PhaseFinished') and event.phase.is_enabled and event.status.name in ('FAILURE', 'ERROR'))")
+R.contract(
+    CTX_ + "ExecutionContext.on_event",
+    prop="C05",
+    args={"self": Obj(CTX_ + "ExecutionContext", statistic=Opq("Statistic"), exit_code=Choice(0, 1)), "event": _Event},
+    ghost={"recorded": 0},
+    raises=[],
+    ensures={
+        # any failed check or internal error => the process exit code is non-zero: a failed / errored phase (its status is at least its worst scenario: unit.execute contract)
+        # and every non-fatal error set it, and nothing ever resets it
+        "failure_or_error_makes_the_exit_code_non_zero": "implies(" + BAD + ", self.exit_code == 1)",
+        "exit_code_never_reset": "implies(old(self.exit_code) == 1, self.exit_code == 1)",
+        "clean_events_leave_it_alone": "implies(not (" + BAD + "), self.exit_code == old(self.exit_code))",
+        "every_finished_scenario_is_recorded": "iff(is_instance(event, 'ScenarioFinished'), ghost('recorded') == 1)",
+    },
+)
